@@ -10,6 +10,7 @@ import (
 	"runtime"
 	"sort"
 	"sync"
+	"sync/atomic"
 	"testing"
 	"testing/synctest"
 	"time"
@@ -797,6 +798,82 @@ func TestC11EchoIDsConcurrent(t *testing.T) {
 			}
 		}
 		rec.CaseEnumerated(incomplete < c.Rounds/2, map[string]any{"base": c.Base, "rounds": c.Rounds, "incomplete_rounds": incomplete})
+		return ds
+	})
+}
+
+// TestC11AllocWrap: many callers allocating at the very moment the counter crosses a multiple of 65536 (the only
+// place where an allocator has anything to decide). One wrap per case, as in TestC11Alloc, meets two callers
+// inside the same few nanoseconds too rarely; here every round starts a few identifiers below the wrap and
+// releases all callers at once.
+func TestC11AllocWrap(t *testing.T) {
+	rec := NewRecorder("C11", "C11AllocWrap", "enumeration, real scheduler: 2 / 4 / 8 goroutines released together (spin barrier) allocate one block each (sizes 30, 30, 255, 1, ...) from a counter set 0..40 below a multiple of 65536 (also below 2^32), 500 rounds per goroutine count (thorough: 6000); oracle: the blocks {start+1..start+size} mod 2^16 of a round are pairwise disjoint; non-trivial = rounds in which a block began below the wrap and another at or after it")
+	rec.Exhaustive = true
+	type wrapCase struct {
+		Procs  int `json:"goroutines"`
+		Rounds int `json:"rounds"`
+	}
+	RunCases(t, rec, func(yield func(*wrapCase) bool) {
+		for _, p := range []int{2, 4, 8} {
+			n := 500
+			if tier() == "thorough" {
+				n = 6000
+			}
+			if !yield(&wrapCase{Procs: p, Rounds: envInt("VERIF_C11_WRAP_ROUNDS", n)}) {
+				return
+			}
+		}
+	}, func(t *testing.T, c *wrapCase, rec *Recorder) []Diff {
+		sizes := []int{30, 30, 255, 1, 30, 64, 30, 2}
+		straddled := 0
+		var ds []Diff
+		for r := 0; r < c.Rounds && len(ds) == 0; r++ {
+			hi := []uint32{0, 1, 0x7fff, 0xffff}[r%4]
+			base := hi<<16 | uint32(0xffff-r%41)
+			packets.VerifSetPacketIDBase(base)
+			starts := make([]uint16, c.Procs)
+			var ready, goFlag atomic.Int32
+			var wg sync.WaitGroup
+			for g := 0; g < c.Procs; g++ {
+				wg.Add(1)
+				go func(g int) {
+					defer wg.Done()
+					ready.Add(1)
+					for i := 0; goFlag.Load() == 0; i++ {
+						if i%64 == 63 {
+							runtime.Gosched() // the machine may have fewer free cores than goroutines
+						}
+					}
+					starts[g] = packets.AllocPacketID(uint8(sizes[(g+r)%len(sizes)]))
+				}(g)
+			}
+			for int(ready.Load()) < c.Procs {
+				runtime.Gosched()
+			}
+			goFlag.Store(1)
+			wg.Wait()
+			owner := map[uint16]int{}
+			below, after := false, false
+			for g, st := range starts {
+				size := sizes[(g+r)%len(sizes)]
+				if st >= 0xff00 {
+					below = true
+				} else {
+					after = true
+				}
+				for k := 1; k <= size && len(ds) == 0; k++ {
+					id := st + uint16(k)
+					if j, dup := owner[id]; dup {
+						ds = append(ds, Diff{"C11", "packet-id-overlap", fmt.Sprintf("round %d (counter %#x, %d goroutines): the blocks starting at %d (size %d) and at %d (size %d) share identifier %d", r, base, c.Procs, starts[j], sizes[(j+r)%len(sizes)], st, size, id)})
+					}
+					owner[id] = g
+				}
+			}
+			if below && after {
+				straddled++
+			}
+		}
+		rec.CaseEnumerated(straddled > 0, map[string]any{"case": c, "rounds_with_blocks_on_both_sides_of_the_wrap": straddled}, fmt.Sprintf("goroutines:%d", c.Procs))
 		return ds
 	})
 }
